@@ -16,8 +16,11 @@ CLAIMED = {
         category='model_checking',
         text="Bounded symbolic model checking of the real MIR of Range::{is_empty,contains,intersects,adjacent_to,merge}, normalize_ranges and "
              "FileLines::{contains_line,contains_range,file_range_matches}: every predicate is proved equivalent to set semantics on line sets for all "
-             "range values < 2^32 and up to 3 (quick) / 4 (thorough) ranges per file, including inverted, adjacent and overlapping ranges. This is the "
-             "part of C17 that is integer-shaped; the visitors that consult the predicates need rustc spans and are outside.",
+             "range values < 2^32 and up to 3 (quick) / 4 (thorough) ranges per file, including inverted, adjacent and overlapping ranges. Also decided, "
+             "under-constrained from function entry with the predicates stubbed to the three valuations outside / intersecting / no selection: the entry guards of "
+             "FmtVisitor::{visit_item, visit_assoc_item, visit_mac} and of format_stmt (with Local::rewrite_result and format_expr inlined) skip exactly the nodes "
+             "outside the selection; and lookup_line_range maps item/statement spans to exactly [line_lo+1, line_hi+1]. The block-tail, reorder and missed-span "
+             "uses of the predicate are outside.",
         note="Trusted: rustc MIR printer, mirsym executor (validated against the real functions on unit-test and random vectors each run), "
              "summaries for HashMap::values_mut/get, slice::sort (sorting network over the derived Ord::cmp MIR), Vec/iterator cursors, cvc5/z3. "
              "Bounds: <= 4 ranges, values < 2^32.",
@@ -30,7 +33,8 @@ CLAIMED['C20'] = dict(
          "effect-trace entries returning a symbolic io::Result; the file-system state after every sub-step (write = truncate, then fill; rename atomic) "
          "is a z3 term, the crash point and the failing operation are symbolic variables, and the solver decides on every path: the original is "
          "recoverable from F or F.bk at every instant, F is never partial, a complete run leaves F=formatted and F.bk=original, an unchanged file "
-         "causes no operation, and every io error propagates. One rewrite, all crash points, all single failures.",
+         "causes no operation, and every io error propagates. One rewrite, all crash points, all single failures. Over the real GetOptsOptions::apply_to "
+         "(1152 paths) `--backup` without `--check` leaves make_backup = true for every combination of the other flags, so that protocol is the one that runs.",
     note="Trusted: the stated file-system model (write = create/truncate then fill, rename atomic), Path::with_extension as a constructor giving "
          "three distinct paths, MIR printer, mirsym, cvc5/z3. Counterexamples are replayed with the real `rustfmt --backup` under strace fault "
          "injection (signal/error at the k-th rename) in a scratch directory. Outside: fsync/durability, other processes.",
@@ -43,7 +47,10 @@ CLAIMED['C16'] = dict(
          "push_vertical_spaces, FormatLines::{new_line,char}, last_line_used_width, FormattedSnippet::unwrap_code_block becomes an obligation decided by "
          "the solver for all max_width 20..200 (thorough 10000), tab_spaces 1..8, arbitrary nesting depth. Sites inside large functions are reached by "
          "under-constrained symbolic execution from the function entry (arbitrary state), which over-approximates and is therefore sound for panic-freedom. "
-         "Parser panics, catch_unwind containment and stack depth are outside this technique.",
+         "Wide scan: the 172 unchecked usize subtractions of the crate are inventoried by function identity and source text (c16_sites.json, audited); a "
+         "subtraction outside the inventory is decided under-constrained and a counterexample replayed on a stress corpus. The byte range that "
+         "format_len/annotation hand to the diagnostic renderer lies inside the line and on character boundaries (abstract boundary predicate, std contracts "
+         "for rfind/trim_end/char_indices). Parser panics, catch_unwind containment and stack depth are outside this technique.",
     note="Trusted: MIR printer, mirsym (lazy under-constrained objects; callees outside shape.rs/config/formatting.rs are uninterpreted and havoc their &mut "
          "arguments), all usize quantities assumed < 2^32. Indent - Indent and Indent - usize are caller-contract dependent and listed, not decided. "
          "A solver counterexample is reported only if the real binary panics at the same source line on a generated nested input.",
@@ -55,10 +62,13 @@ CLAIMED['C07'] = dict(
          "and FormatReport::track_errors: from an arbitrary scanner state satisfying the representation invariant, one char or newline event with "
          "arbitrary character, classifier kind, max_width, tab_spaces, both flags, skipped ranges and an uninterpreted line-selection predicate is "
          "executed symbolically; the solver decides completeness (every reportable line is reported), soundness (no other line, right line number, "
-         "found/max values), the unconditional trailing-blank clause, and that the invariant is re-established - so the result holds for texts of any length.",
+         "found/max values), the unconditional trailing-blank clause, and that the invariant is re-established - so the result holds for texts of any length. "
+         "Skipped ranges: push_skipped_with_span records (lo, hi) in output line numbers (source geometry = uninterpreted line_of(pos), output side = the visitor's "
+         "own counter); the macro fallback records source lines (known finding).",
     note="Trusted: MIR printer, mirsym (validated each run by pushing concrete texts through the real scanner via the format_lines_scan hook and through the "
          "encoding), the stated reading of 'comment line' / 'contains a string literal' in terms of classifier kinds, sel(n) standing for file_lines "
-         "(C17), <= 2 (thorough 3) skipped ranges, all counters < 2^32. Outside: how skipped ranges are recorded by the visitors, and the classifier itself.",
+         "(C17), <= 2 (thorough 3) skipped ranges, all counters < 2^32. Known finding (open): return_macro_parse_failure_fallback records source lines. "
+         "Outside: which spans the callers of push_skipped_with_span pass, and the classifier itself.",
     design='§5 C07')
 
 CLAIMED['C06'] = dict(
@@ -68,10 +78,13 @@ CLAIMED['C06'] = dict(
          "ends with the diff emitter, for any other flag combination and any inline --config pair), create_emitter (a writing emitter exactly for "
          "EmitMode::Files, the backup one exactly with make_backup), every emitter's emit_formatted_file (DiffEmitter.has_diff <=> texts differ; "
          "FilesEmitter writes exactly when they differ, writes the formatted text to the file itself and never reports has_diff; the other five "
-         "emitters reach no file-system write on any path) and ReportedErrors::add. Texts are uninterpreted values compared for equality.",
+         "emitters reach no file-system write on any path; FilesWithBackupEmitter reaches one only if the texts differ), ReportedErrors::add, "
+         "Session::handle_formatted_file + FormatReport::add_diff (has_diff accumulates, the other flags untouched) and format_string, the standard-input "
+         "twin of format (same exit formula: known finding, --check ignores the diff there). Texts are uninterpreted values compared for equality.",
     note="Trusted: MIR printer, mirsym with under-constrained objects, make_diff's contract (empty iff same lines; proved under C12), printing / Display "
          "uninterpreted, frame condition that formatting an input does not assign session.config. Counterexamples are replayed by running the real "
-         "binary over a matrix of modes/files and comparing exit status and file hashes. Outside: mtimes, stdin/path text agreement, --check on stdin.",
+         "binary over a matrix of modes/files/module trees/standard input and comparing exit status, file hashes, mtimes and inodes. Known finding (open): "
+         "--check on standard input exits 0 with a diff. Outside: stdin/path text agreement.",
     design='§5 C06')
 
 CLAIMED['C15'] = dict(
@@ -94,7 +107,8 @@ CLAIMED['C14'] = dict(
          "set_width_heuristics / WidthHeuristics::{scaled,set,null} for every max_width 20..1000 (thorough 10000), every heuristics mode, arbitrary user "
          "overrides and was_set flags (clamp of user values, Max = max_width, documented defaults up to 100, never above max_width, monotone above 100; "
          "f32 arithmetic bit-exact in the solver's FP theory); Config::default_for_possible_style_edition (style_edition > version > edition); the three "
-         "deprecated-alias setters; get_toml_path (dotted name wins in one directory, for all file/other/absent/error outcomes of both probes); and, in "
+         "deprecated-alias setters; PartialConfig::to_parsed_config (the command line's style_edition / edition / version beat the file's when the base "
+         "defaults are chosen); get_toml_path (dotted name wins in one directory, for all file/other/absent/error outcomes of both probes); and, in "
          "bin/main.rs::format, that every input is formatted with the config resolved for it.",
     note="Known findings (open, re-derived and replayed every run): Default heuristics exceed max_width below 60/70/35/50, Off yields usize::MAX. Trusted: MIR "
          "printer, mirsym, solver FP theories, uninterpreted default_with_style_edition / fs::metadata / Path::join / canonicalize, ignored eprintln!. "
@@ -107,8 +121,11 @@ CLAIMED['C18'] = dict(
          "processes with symbolic (success, Option<code>) per child and symbolic io failures of spawn/wait: Ok(code) is returned only after every group "
          "ran, and code != 0 exactly when some child failed (including children killed by a signal); (2) Target's PartialEq/PartialOrd/Ord: two targets "
          "are the same element of the BTreeSet exactly when their paths are equal, whatever their kind and edition - which is what makes each file be "
-         "passed once. Target discovery and the argument vectors are outside this technique.",
-    note="Thin (level other). Trusted: MIR printer, mirsym under-constrained mode, std contract success() <=> code() == Some(0), uninterpreted Command building, "
+         "passed once; (3) get_targets_root_only over a harness `cargo metadata` result (1..2, thorough 3 packages of two targets, path values uninterpreted, "
+         "working directory / its Cargo.toml / workspace root symbolic, the real filter/flat_map/collect closures): the package cargo picks for the working "
+         "directory gets all its targets. The recursive and hit-list selections and the argument vectors are outside this technique.",
+    note="Known finding (open): from a strict subdirectory of a member of a multi-package workspace no target is selected. "
+         "Level other. Trusted: MIR printer, mirsym under-constrained mode, std contract success() <=> code() == Some(0), uninterpreted Command building, "
          "PathBuf comparison as equality / total order on uninterpreted values, edition grouping supplied by the harness. Replay: the real cargo-fmt in a "
          "scratch three-edition workspace with a scripted $RUSTFMT stand-in (exit codes 1/3/101, SIGKILL) and a file shared by two editions.",
     design='§5 C18',
@@ -149,8 +166,10 @@ CLAIMED['C08'] = dict(
          "without hard_tabs; both the constant-buffer slice and the string-building path), convert_to_windows_newlines as a per-character step "
          "(every emitted LF preceded by CR, nothing but terminators changes), convert_to_unix_newlines = str::replace(CRLF, LF) checked structurally and "
          "its consequence decided in the solver's string theory for strings <= 5 (thorough 8), auto_detect_newline_style = style of the first "
-         "terminator, and skip_empty_lines (a leading line is skipped iff it is all whitespace).",
-    note="Known finding (open): Unix conversion leaves a CRLF for CR CR LF. Trusted: MIR printer, mirsym incl. mid-function start at loop heads, SMT-LIB "
+         "terminator of its argument, that argument traced in format_file to rustc's SourceFile.src and composed with the contract src = replace_all(CRLF, LF) "
+         "(Auto never selects Windows: known finding), skip_empty_lines (a leading line is skipped iff it is all whitespace), and format_missing_indent from an "
+         "empty buffer (nothing is emitted for the leading whitespace of a file, wherever the file starts in the source map).",
+    note="Known findings (open): Unix conversion leaves a CRLF for CR CR LF; Auto detects on the newline-normalised source-map text. Trusted: MIR printer, mirsym incl. mid-function start at loop heads, SMT-LIB "
          "str.replace_all as the semantics of str::replace, cursor summaries for Chars/Peekable, trimmed.is_empty() as an uninterpreted all-whitespace "
          "predicate, FormatLines.newline_count = trailing newlines (C07). Outside: list machinery, copied code, lower > upper.",
     design='§5 C08')
@@ -190,9 +209,11 @@ CLAIMED['C03'] = dict(
          "harness-supplied slice lists (<= 2 slices of symbolic kind per text) and an abstract payload function: it reports a change exactly when the "
          "payload streams of ALL comment slices differ, so no comment slice is exempt from the comparison; CharClasses::next as one step from each "
          "comment-tracking status with symbolic current/look-ahead characters and symbolic nesting depth: /* and // and nothing else start a comment, "
-         "nesting is counted, a block comment ends when the depth reaches zero, a line comment ends at the newline, code is never labelled comment.",
+         "nesting is counted, a block comment ends when the depth reaches zero, a line comment ends at the newline, code is never labelled comment; "
+         "net wiring: on every path (under-constrained, all callees uninterpreted) on which format_stmt, format_expr (956 paths) or rewrite_static returns a "
+         "text, that text went through recover_comment_removed or is the verbatim source snippet.",
     note="Trusted: MIR printer, mirsym, itertools MultiPeek cursor semantics, tracing disabled, payload(text) abstract (CommentReducer itself is not "
-         "encoded), lazy iterator adaptors with the real closure MIR. Outside: whether each rewriter calls the safety net, list machinery, close_block, "
+         "encoded), lazy iterator adaptors with the real closure MIR. Outside: rewriters other than the three the anchors name, list machinery, close_block, "
          "rewrite_comment, whole-text agreement of the string/char/lifetime segmentation with the Rust lexer. Replay: real binary on crafted sources, "
          "each comment word must appear exactly once.",
     design='§5 C03')
